@@ -217,6 +217,10 @@ def _build_results(spec: dict) -> tuple:
             record.create_candidate_clusters()
             record.create_regions()
             record.original_id = f"original {r}"
+        if r in (spec.get("skipped") or []):
+            # a record the run decided to skip still carries the results made before that decision (detection), or
+            # the raw results of an earlier run that is being reused
+            record.skip = "No regions detected"
         kind = by_record.get(r)
         if kind == "annotation_object":
             record.add_annotation("verif_note", ["fine", types["unserialisable"]()])
@@ -316,6 +320,8 @@ def check_write(spec: dict) -> dict:
         shutil.rmtree(scratch, ignore_errors=True)
 
     classes = [spec["target"], f"R{spec['R']}", f"M{spec['M']}", "rich" if spec.get("rich") else "plain",
+               "fault_on_skipped_record" if any(f.get("r") in (spec.get("skipped") or []) for f in faults)
+               else ("some_record_skipped" if spec.get("skipped") else "no_record_skipped"),
                f"old_{'empty' if not old else 'bytes'}"]
     if not faults:
         classes.append("no_fault")
@@ -364,8 +370,13 @@ def enum_write(max_r: int, max_m: int):
                                 for m in range(M):
                                     for kind in MODULE_KINDS:
                                         yield dict(base, faults=[{"where": "module", "r": r, "m": m, "kind": kind}])
+                                        # the same with the failing record marked as skipped by the run
+                                        yield dict(base, faults=[{"where": "module", "r": r, "m": m, "kind": kind}],
+                                                   skipped=[r])
                                 for kind in RECORD_KINDS:
                                     yield dict(base, faults=[{"where": "record", "r": r, "kind": kind}])
+                                    yield dict(base, faults=[{"where": "record", "r": r, "kind": kind}], skipped=[r])
+                            yield dict(base, faults=[], skipped=list(range(R)))
                             for kind in TOP_KINDS:
                                 if kind == "timings_object" and target != "write_to_file":
                                     continue
@@ -601,6 +612,10 @@ ENTRY_CLASSES = {
     "dotdir": [{"p": ".git", "t": "d"}, {"p": ".git/config", "t": "f", "d": "[core]"}],
     "suffix_input": [{"p": "myinput", "t": "d"}, {"p": "myinput/a.fa", "t": "f", "d": ">a"}],
     "empty_dir": [{"p": "tmp", "t": "d"}],
+    # entries whose path is a string prefix of the log file's path without being the log file or holding it
+    "log_prefix_dir": [{"p": "antismash", "t": "d"}, {"p": "antismash/old.txt", "t": "f", "d": "older run"}],
+    "log_prefix_empty_dir": [{"p": "antismash.lo", "t": "d"}],
+    "log_prefix_file": [{"p": "anti", "t": "f", "d": "a file whose name starts the log's name"}],
 }
 EXCLUSIVE = [{"input_dir", "input_file"}, {"logfile", "log_twin"}]
 
